@@ -352,7 +352,7 @@ async fn h2_client(plan: TPlan, target: String, peer: PeerConn, obs: Shared<Obs>
     let req = http::Request::builder()
         .method("CONNECT")
         .uri(target.as_str())
-        .header("proxy-authorization", basic_auth("u0", "p0"))
+        .header("proxy-authorization", basic_auth("u0", "p0-secret-password"))
         .body(())
         .unwrap();
     let _ = std::future::poll_fn(|cx| send.poll_ready(cx)).await;
@@ -436,7 +436,7 @@ async fn h1_client(plan: TPlan, target: String, peer: PeerConn, obs: Shared<Obs>
     let head = format!(
         "CONNECT {t} HTTP/1.1\r\nHost: {t}\r\nProxy-Authorization: {a}\r\n\r\n",
         t = target,
-        a = basic_auth("u0", "p0")
+        a = basic_auth("u0", "p0-secret-password")
     );
     obs.lock().unwrap().t_request = world::now_us();
     if peer.write_all(head.as_bytes()).await.is_err() {
